@@ -4,7 +4,7 @@
    of C05: a PUBLISH produced by the encoder is parsed back to the same message. *)
 (* Layout: the definitions used by the statements come first, then auxiliary lemmas; the theorems
    of the property (unchanged statements) are proved where their ingredients are available. *)
-From MQ Require Import Base Codec Codec_proofs Inbound Parse.
+From MQ Require Import Base Codec Codec_proofs Inbound Inbound_proofs Parse.
 From MQ Require Export ParseSpec.
 Open Scope N_scope.
 
@@ -977,6 +977,82 @@ Theorem serve_classified h s :
   exists e, snd (serve h s) = EndErr e /\
     if has_malformed s then protocol_error e else (e = EEOF \/ e = EUnexpectedEOF).
 Proof. apply serve_stream_classified. lia. Qed.
+
+(* ---------- normal processing of the well-formed packets, for every byte stream ---------- *)
+Lemma sv_in_events_app a b : sv_in_events (a ++ b) = sv_in_events a ++ sv_in_events b.
+Proof. unfold sv_in_events. apply flat_map_app. Qed.
+
+Lemma sv_in_events_lift es : sv_in_events (lift_in es) = es.
+Proof. induction es as [|e r IH]; [reflexivity|]. cbn. f_equal. exact IH. Qed.
+
+Lemma sv_in_events_al (alloc : option N) :
+  sv_in_events (match alloc with Some n => [EvAlloc n] | None => [] end) = [].
+Proof. destruct alloc; reflexivity. Qed.
+
+(* one well-formed packet: the loop's step is the step of Inbound.serve_in on the PUBLISH / PUBREL
+   it carries, and nothing for the other types *)
+Lemma dispatch_in_step h sb typ flag body sb' ev : malformed typ flag body = false ->
+  dispatch h sb typ flag body = Ok (sb', ev) ->
+  forall ps, sv_in_events ev ++ serve_in h sb' ps =
+    serve_in h sb (match typ with
+                   | 3 => match parse_publish flag body with Ok m => [InPublish m] | _ => [] end
+                   | 6 => match body with hi :: lo :: _ => [InPubRel (hi * 256 + lo)] | _ => [] end
+                   | _ => []
+                   end ++ ps).
+Proof.
+  intros Hm.
+  destruct (typ_cases typ) as [-> | [-> | [-> | [-> | [-> | [-> | [-> | [-> | [-> | [Hd _]]]]]]]]]];
+    [ | | | | | | | | | rewrite Hd; discriminate ]; unfold dispatch; cbv beta iota.
+  - destruct (parse_connack flag body); cbn [rbind]; try discriminate.
+    intros H ps. injection H as <- <-. reflexivity.
+  - destruct (parse_publish flag body) as [m|e|]; cbn [rbind]; try discriminate.
+    destruct (serve_in_step h sb (InPublish m)) as [sb1 ev1] eqn:Es.
+    intros H ps. injection H as <- <-. cbn [app serve_in]. rewrite Es, sv_in_events_lift. reflexivity.
+  - destruct (parse_puback flag body); cbn [rbind]; try discriminate.
+    intros H ps. injection H as <- <-. reflexivity.
+  - destruct (parse_pubrec flag body); cbn [rbind]; try discriminate.
+    intros H ps. injection H as <- <-. reflexivity.
+  - unfold malformed in Hm. apply orb_false_iff in Hm. destruct Hm as [Hf Hl].
+    destruct body as [|hi [|lo r]]; try discriminate Hl.
+    unfold parse_pubrel, parse_id_only. rewrite Hf. cbv iota.
+    change (Nat.ltb (length (hi :: lo :: r)) 2) with false. cbv iota.
+    rewrite unpack_uint16_cons. cbn [rbind].
+    destruct (serve_in_step h sb (InPubRel (hi * 256 + lo))) as [sb1 ev1] eqn:Es.
+    intros H ps. injection H as <- <-. cbn [app serve_in]. rewrite Es, sv_in_events_lift. reflexivity.
+  - destruct (parse_pubcomp flag body); cbn [rbind]; try discriminate.
+    intros H ps. injection H as <- <-. reflexivity.
+  - destruct (parse_suback flag body); cbn [rbind]; try discriminate.
+    intros H ps. injection H as <- <-. reflexivity.
+  - destruct (parse_unsuback flag body); cbn [rbind]; try discriminate.
+    intros H ps. injection H as <- <-. reflexivity.
+  - destruct (parse_pingresp flag body); cbn [rbind]; try discriminate.
+    intros H ps. injection H as <- <-. reflexivity.
+Qed.
+
+Lemma serve_stream_in_events f : forall h sb s,
+  sv_in_events (fst (serve_stream f h sb s)) = serve_in h sb (prefix_pkts f s).
+Proof.
+  induction f as [|f IH]; intros h sb s; cbn [serve_stream prefix_pkts]; [reflexivity|].
+  destruct (read_packet s) as [r alloc]. cbn [fst].
+  destruct r as [typ flag body rest|e|]; cbn [fst]; try apply sv_in_events_al.
+  pose proof (dispatch_classified h sb typ flag body) as Hc.
+  destruct (malformed typ flag body) eqn:Hm; cbn [classifies] in Hc.
+  - destruct Hc as (e & -> & _). cbn [fst]. apply sv_in_events_al.
+  - destruct Hc as ([sb' ev] & Hd). rewrite Hd.
+    specialize (IH h sb' rest). destruct (serve_stream f h sb' rest) as [evs e1]. cbn [fst] in *.
+    rewrite !sv_in_events_app, sv_in_events_al, IH. cbn [app].
+    exact (dispatch_in_step h sb typ flag body sb' ev Hm Hd _).
+Qed.
+
+(* for EVERY byte stream: what the reader hands over and acknowledges is what the abstract
+   receiver (Inbound.spec_run) prescribes for the well-formed PUBLISH / PUBREL packets that precede
+   the first malformed packet — content included, and a QoS 2 message at its PUBREL whatever
+   arrived in between *)
+Theorem serve_processes_prefix_normally h s :
+  sv_in_events (fst (serve h s)) = expected_events h s.
+Proof.
+  unfold serve, expected_events. rewrite serve_stream_in_events. apply Inbound_proofs.refines_spec.
+Qed.
 
 (* ---------- non-vacuity ---------- *)
 Example ex_malformed_suback_short : malformed 9 0 [] = true.
